@@ -39,6 +39,27 @@ Section RerunCrash.
       + intros q _. exact (Hon q).
   Qed.
 
+  (* records follow the writes: at any interruption point, if some root's manifest no longer holds its
+     previous content, every desired file already holds its rendered bytes and every recorded,
+     no-longer-desired file is already gone *)
+  Lemma records_follow_writes k r :
+    In r roots ->
+    cfiles (run_prefix k (steps_of_apply (files w) roots D pl) (init_state (files w))) (mf_path r) <> files w (mf_path r) ->
+    (forall d, In d D -> cfiles (run_prefix k (steps_of_apply (files w) roots D pl) (init_state (files w))) (dpath d) = Some (FBytes (dcontent d))) /\
+    (forall t p, In (t, p) M -> mem_key (t, p) D = false ->
+                 cfiles (run_prefix k (steps_of_apply (files w) roots D pl) (init_state (files w))) p = None).
+  Proof.
+    intros Hr Hne.
+    destruct (crash_state_phase k) as [(_ & Hman & _)|(_ & Hfin & _)].
+    - exfalso. apply Hne. apply (Hman (mf_path r)). apply mf_path_is_manifest.
+    - split.
+      + intros d Hd. simpl in Hfin. rewrite (Hfin (dpath d)) by (apply HD; exact Hd).
+        apply (files_after_desired w roots D flt HD HM d Hd).
+      + intros t p Hin Hk. simpl in Hfin.
+        rewrite (Hfin p) by (apply (proj1 HM t p Hin)).
+        apply (files_after_removed w roots D flt HD HM t p Hin Hk).
+  Qed.
+
   Theorem rerun_after_crash k st adopt :
     (has_adopt pl = false \/ adopt = true) ->
     let wc := Build_world (cfiles (run_prefix k (steps_of_apply (files w) roots D pl) (init_state (files w)))) (snaps w) in
